@@ -16,6 +16,12 @@ CHECKS = {
  "C04": ("E2-shape-lattice", "exhaustive enumeration of all datasets up to k statements over finite triple/quad universes (every sub-dataset exactly once, no symmetry reduction) x syntax x pretty/streaming x prefix maps x indentation, in crash-attributing worker processes; brute-force isomorphism oracle",
          "Every dataset up to the size bound over universes built to trigger each abbreviation both ways (blank node cycles of every length up to the bound, shared/unreferenced/branching/cyclic list cells, asserted-and-quoted triples, blank nodes spanning graphs, rdf:nil in every position) is serialised and parsed back; the result must be isomorphic (all blank node bijections tried) with no duplicate statement. Numeric/boolean shorthands and prefixed names are covered by enumerating all short lexical forms and local names. Hangs, aborts and memory blow-ups are attributed to the case by the worker pool.",
          "Small-scope hypothesis on dataset size; the toolkit's own Turtle/TriG parser reads the output; brute-force isomorphism model.", "DESIGN.md §4 C04"),
+ "C05": ("E2-shape-lattice", "exhaustive enumeration of all small blank-node graphs (all digraphs / undirected graphs up to n nodes, decorated and symmetric families) x all relabellings x insertion orders x containers x hash functions; partition by canonical form compared with the partition by a brute-force canonical key",
+         "For every graph of the enumerated families the canonical document is byte-identical under all n! relabellings, insertion orders and containers, parses back (independent reader + toolkit parser) to a dataset that the returned bijective id map carries the input onto, and within each exhaustive family two graphs share a canonical form exactly when a brute-force canonical labelling says they are isomorphic.",
+         "Small-scope hypothesis (n <= 4/5/6 exhaustive; structured families to 13 nodes); property is conditional on success (ToxicGraph under default limits is not a violation).", "DESIGN.md §4 C05"),
+ "C06": ("E2-shape-lattice", "the same exhaustive graph families, literals with every escape-relevant code point, and a limits matrix, compared byte for byte with an independent implementation of RDFC-1.0 written from the Recommendation",
+         "Document (SHA-256 and SHA-384) and issued identifiers (through their effect on the input) equal those of the reference on every enumerated graph; unsupported inputs are refused with the right error; every (depth factor, permutation limit) setting gives the same document or a ToxicGraph error justified by the reference's own recursion-depth / group-size counters.",
+         "The reference's reading of the Recommendation (assumptions A-C06-1/2, validated on the Recommendation's worked examples); automorphic blank nodes may be issued in any order (compared through the resulting document).", "DESIGN.md §4 C06, Appendix A"),
  "C09": ("E3-product-automaton", "product of the DFA determinised from the crate's regex source with the DFA of the RFC 3987 ABNF (all strings), witness replay per product edge; bounded exhaustive string and (base, reference) pair enumeration against RFC 3986 5.2",
          "Language equality of the validator with RFC 3987 is decided for strings of every length by exploring all reachable product states; the model is bound to the code by construction (built from the crate's public regex source at run time) and by replaying a witness per product edge through every validating entry point. Base conversion, Namespace::get and resolution are checked exhaustively over all strings up to a length and all pairs of a generated IRI set.",
          "regex-automata determinisation; ABNF transcription (cross-checked against oxiri); RFC 3986 5.2 reference (validated on the 42 examples of 5.4); bounds of the string/pair enumerations.", "DESIGN.md §4 C09"),
